@@ -98,12 +98,22 @@ def make_case(rnd, m, nm, em, thorough, hostile=None):
         td = rnd.choice([t for t in (1, 2, 3) if t < N] or [1])
     if rnd.random() < 0.02:
         td = rnd.choice([0, N, N + 3])  # invalid on purpose
+    if m == "hlle" and 8 < td <= max(k, 8):
+        # the Hessian estimator has td(td+1)/2 columns per neighbourhood: O(N k td^4) work, hours for td ~ 100 (the watchdog
+        # would then report a slow but terminating call as a hang); the larger td values that remain are rejected by td > k
+        td = rnd.choice([4, 5, 8])
     c["td"] = td
     c["tdb"] = bucket_td(td, c)
     # other keywords
     if m in ("le", "lpp", "dm"):
         w = rnd.choice([0.5, 1.0, 10.0, 100.0, 1e-3, 1e6])
         if w in (1e-3, 1e6):
+            interior = False
+        # a width far below the squared neighbour distances makes every heat weight underflow (the data are numerically
+        # disconnected: the limit width -> 0+), which is not "strictly inside the range" for that data set
+        if kind == "swiss" and w < 100.0:
+            interior = False
+        if kind in ("gauss", "scurve") and w < 1.0:
             interior = False
         c["width"] = w
     if m == "dm":
